@@ -7,6 +7,10 @@ SPEC = {
          "configs": {"exact_values": {"quick": 2000, "thorough": 200000},
                      "exact_algebra": {"quick": 1000, "thorough": 100000},
                      "exact_metric": {"quick": 1000, "thorough": 100000}}, "chunk": 25},
+        {"name": "grid", "src": ["c18_grid.cpp"], "variant": "asan",
+         "configs": {"grid_values": {"quick": 2000, "thorough": 200000},
+                     "grid_algebra": {"quick": 1000, "thorough": 100000},
+                     "grid_metric": {"quick": 1000, "thorough": 100000}}, "chunk": 25},
     ],
     "floors": {"quick": {}, "thorough": {}},
     "manifest": {"text": "TODO", "note": "TODO", "technique": "runtime monitoring"},
